@@ -1,6 +1,6 @@
 SPECIFICATION GenSpec
 CONSTANTS
-  Segs = {"", ".", "..", "a", "b.c", "d e"}
+  Segs = {"", ".", "..", "a", "b.c", "d e", "ab", "..a"}
   MaxLen = 4
   RootSet <- GenRoots
 CHECK_DEADLOCK FALSE
